@@ -293,12 +293,15 @@ func c20Machine(t *rapid.T, prop string) {
 			if dataState == "none" {
 				takeFetch(0) // a fetch may have been started by an earlier step
 			}
-			act := rapid.IntRange(0, 11).Draw(t, "action")
+			act := rapid.IntRange(0, 13).Draw(t, "action")
 			if i == 0 && rapid.IntRange(0, 3).Draw(t, "startWithLease") > 0 {
 				act = 0
 			}
 			if i == 1 && len(leases) > 0 && pendingFetch != nil && rapid.IntRange(0, 2).Draw(t, "submitWhileFetching") > 0 {
 				act = 2
+			}
+			if i >= 1 && pendingFetch != nil && len(updates) == 0 && rapid.IntRange(0, 3).Draw(t, "updateWhileFetching") == 0 {
+				act = 8
 			}
 			switch act {
 			case 0, 1: // lease won
@@ -317,14 +320,22 @@ func c20Machine(t *rapid.T, prop string) {
 				collectReplies("lease won", false)
 				checkAnnouncements("lease won")
 			case 2, 3, 4, 5: // submit
-				kind := rapid.SampledFrom([]string{"valid", "valid", "valid", "wrong-version", "count-mismatch", "count-mismatch", "no-services", "valid-updated"}).Draw(t, "kind")
+				kind := rapid.SampledFrom([]string{"valid", "valid", "valid", "wrong-version", "count-mismatch", "count-mismatch", "no-services", "valid-updated", "valid-updated"}).Draw(t, "kind")
 				var mf manifest.Manifest
 				valid := true
 				switch kind {
 				case "valid":
 					mf = c20Manifest(0, "", 2, false)
 				case "valid-updated":
-					mf = c20Manifest(1, "", 2, false)
+					// the manifest of one of the updates seen so far, mostly the latest one
+					// (update #n on chain carries the hash of variant n)
+					v := len(updates)
+					if v == 0 {
+						v = 1
+					} else if v > 1 && rapid.IntRange(0, 2).Draw(t, "olderUpdate") == 0 {
+						v = rapid.IntRange(1, v-1).Draw(t, "whichUpdate")
+					}
+					mf = c20Manifest(v, "", 2, false)
 				case "wrong-version":
 					mf = c20Manifest(7+nextSub, "", 2, false)
 				case "count-mismatch":
@@ -392,13 +403,14 @@ func c20Machine(t *rapid.T, prop string) {
 				}
 				collectReplies("fetch completion", false)
 				checkAnnouncements("fetch completion")
-			case 8: // version updated on chain
-				mm := c20Manifest(1, "", 2, false)
+			case 8, 12, 13: // version updated on chain
+				// every update carries a new version: update #n records the hash of variant n
+				mm := c20Manifest(len(updates)+1, "", 2, false)
 				if svc.config.HTTPServicesRequireAtLeastOneHost {
 					mm[0].Services[0].Expose[0].Hosts = []string{"free.example.com"}
 				}
 				nv, _ := sdl.ManifestVersion(mm)
-				note("version-updated")
+				note("version-updated(#%d)", len(updates)+1)
 				m.handleUpdate(nv)
 				updates = append(updates, nv)
 				barrier("version update")
